@@ -40,3 +40,30 @@ def insertAll (l : List (Int × Nat)) (s : SQ) : SQ := l.foldl (fun acc x => SQ.
 def stableByTime (l : List (Int × Nat)) : SQ := insertAll l []
 
 end Sc3Verif.C09
+
+namespace Sc3Verif.C09
+
+/-- the same merge on the specification: the sorted list decides who is next -/
+def pparLoopS (rem : List (List Int)) (now : Int) : Nat → SQ → List (Option Nat × Int)
+  | 0, _ => []
+  | fuel + 1, s =>
+    match s.head? with
+    | none => []
+    | some x =>
+      match rem.getD x.2 [] with
+      | d :: rest =>
+        let s' := SQ.insert (now + d) x.2 (SQ.erase x.2 s.tail)
+        let next := peekTime s'.head? now
+        (some x.2, next - now) :: pparLoopS (rem.set x.2 rest) next fuel s'
+      | [] =>
+        if s.tail.isEmpty then []
+        else
+          let next := peekTime s.tail.head? now
+          (none, next - now) :: pparLoopS rem next fuel s.tail
+
+def pparInitS (n : Nat) : SQ := (List.range n).foldl (fun s c => SQ.insert 0 c (SQ.erase c s)) []
+
+def pparS (rem : List (List Int)) : List (Option Nat × Int) :=
+  pparLoopS rem 0 (rem.length + (rem.map List.length).sum + 1) (pparInitS rem.length)
+
+end Sc3Verif.C09
